@@ -90,6 +90,16 @@ CORPUS_V = [
 ]
 
 
+# keys that are NOT properties of a .rules section, although they name things the parser / the rule record know:
+# the parser's working-dict keys, MerchantRule / MatchResult attributes, plural / singular / misspelt variants of the real
+# keys, and the keywords of the other file format.  Every one must be rejected as an unknown property.
+FOREIGN_KEYS_M = ['name', 'match_expr', 'let_bindings', 'fields', 'tags_list', 'line_number', 'is_categorization_rule', 'has_merchant',
+                  'has_subcategory', 'lets', 'tag', 'matches', 'match expr', 'categories', 'sub_category', 'sub category', 'merchants',
+                  'merchant_name', 'prio', 'priorities', 'rule', 'rules', 'variables', 'transforms', 'filter', 'description', 'expr',
+                  'matched_rule', 'tag_sources', 'extra_fields', 'field.memo', 'let x', 'self', '__class__', '']
+FOREIGN_KEYS_V = ['name', 'filter_expr', 'filter_ast', 'variables', 'line_number', 'sections', 'global_variables', 'Filter', 'FILTER',
+                  'Description', 'DESCRIPTION', 'filters', 'descriptions', 'desc', 'match', 'category', 'tags', 'filter ', 'description ']
+
 # names that are NOT a plain identifier (a let / field name must match [a-zA-Z_][a-zA-Z0-9_]* exactly)
 BAD_NAMES = ['field.{n}', 'field.size', 'Field.{n}', 'txn.{n}', '{n}.x', '1{n}', '{n}-1', '{n} y', '{n}()', '"{n}"', '{n}[0]', '.{n}', '{n}.',
              'field.', 'é{n}']
@@ -393,6 +403,11 @@ def corruptions(kind, items, lines, rnd, full=False):
         if kind == 'm':
             if it[0] == 'prop':
                 alt('unknown_property', 'colour:' + lines[i].split(':', 1)[1], ('reject', L))
+                # every foreign key on the first property line and on the match line of each corpus section; a random pair elsewhere
+                for fk in (FOREIGN_KEYS_M if full and (it[1] == 'match' or i == hdr_of[i] + 1) else rnd.sample(FOREIGN_KEYS_M, 2)):
+                    # the line re-keyed, and a line with that key added right after this one
+                    alt('unknown_property', fk + ':' + lines[i].split(':', 1)[1], ('reject', L))
+                    out.append(('unknown_property', lines[:i + 1] + [f'{fk}: {rnd.choice(NAMES)}'] + lines[i + 1:], ('reject', L + 1)))
                 alt('no_colon', lines[i].replace(':', ' ').replace('=', ' '), ('reject', L))
                 if it[1] == 'let':
                     for bl in (BAD_NAMES if full else rnd.sample(BAD_NAMES, 2)):
@@ -424,6 +439,9 @@ def corruptions(kind, items, lines, rnd, full=False):
                 alt('invalid_expression', f'filter: {bad}', ('reject', L))
                 alt('filter_empty', 'filter:', ('reject', L))
                 alt('unknown_property', 'colour: ' + it[1], ('reject', L))
+                for fk in (FOREIGN_KEYS_V if full else rnd.sample(FOREIGN_KEYS_V, 2)):
+                    alt('unknown_property', f'{fk}: {it[1]}', ('reject', L))
+                    out.append(('unknown_property', lines[:i + 1] + [f'{fk}: x'] + lines[i + 1:], ('reject', L + 1)))
             elif it[0] in ('gvar', 'svar'):
                 alt('invalid_expression', f'{it[1]} = {bad}', ('reject', L))
             elif it[0] == 'desc':
